@@ -184,6 +184,18 @@ func genC19(t *rapid.T) *Case {
 					root, raw := g.pick("mxssroot", "math", "svg"), g.pick("mxssraw", "xmp", "noembed", "noframes", "noscript", "iframe", "style")
 					early += ` <` + root + `><` + raw + `>` + payload + `</` + raw + `></` + root + `>`
 				}
+				if g.chance(12, "twjslast") {
+					// the last anchor of the block is a script link with text only; an earlier anchor points
+					// to twitter.com (a hashtag): the block names no tweet
+					o.Tag, o.Service = "blockquote-script-last", ""
+					el = `<blockquote class="twitter-tweet" lang="en"><p>` + g.words(g.intn(2, 10, "tww")) +
+						` <a href="https://twitter.com/hashtag/` + g.tokp("tag") + `?src=hash">#` + g.words(1) + `</a></p>&mdash; ` + g.words(2) +
+						` <a href="javascript:void(0)">` + g.words(2) + ` ` + tok + `</a></blockquote>`
+					g.pop()
+					ex.Origins = append(ex.Origins, o)
+					b.WriteString(el + "\n")
+					continue
+				}
 				el = `<blockquote class="twitter-tweet" lang="en"><p>` + g.words(g.intn(2, 10, "tww")) + early +
 					`</p>&mdash; ` + g.words(2) + ` <a href="` + htmlEsc(src) + `">` + g.words(2) + `</a></blockquote>`
 				g.pop()
